@@ -55,6 +55,14 @@ func ItemsEqual(it, with Item) bool {
 			result = c.Equals(with)
 			return nil
 		})
+	} else if IsLink(it) {
+		if !IsLink(with) {
+			return false
+		}
+		_ = OnLink(it, func(l *Link) error {
+			result = l.Equals(with)
+			return nil
+		})
 	} else if IsObject(it) {
 		_ = OnObject(it, func(i *Object) error {
 			result = i.Equals(with)
